@@ -176,7 +176,8 @@ class BaseEdge(ABC):
 
         """
         jacobian = np.zeros(err.shape + (dim,))
-        p0 = self.vertices[vertex_index].pose.copy()
+        # Keep the original pose object, so that exactly the same pose can be restored afterwards
+        p0 = self.vertices[vertex_index].pose
 
         for d in range(dim):
             # update the pose
@@ -188,7 +189,7 @@ class BaseEdge(ABC):
             jacobian[:, d] = (self.calc_error() - err) / self._NUMERICAL_DIFFERENTIATION_EPSILON
 
             # restore the pose
-            self.vertices[vertex_index].pose = p0.copy()
+            self.vertices[vertex_index].pose = p0
 
         return jacobian
 
